@@ -15,7 +15,7 @@ theorem err_bind_ok {α β : Type} {e : Err} {k : α → R β} {y : β} : (((Exc
 theorem ok_bind {α β : Type} {a : α} {k : α → R β} : ((Except.ok a : R α) >>= k) = k a := rfl
 theorem pure_bind' {α β : Type} {a : α} {k : α → R β} : ((pure a : R α) >>= k) = k a := rfl
 
-theorem ite_err_ok {α β : Type} {c : Prop} [Decidable c] {e : Err} {k : α → R β} {b : R β} {y : β} :
+theorem ite_err_bind_ok {α β : Type} {c : Prop} [Decidable c] {e : Err} {k : α → R β} {b : R β} {y : β} :
     ((if c then ((Except.error e : R α) >>= k) else b) = .ok y) = (¬ c ∧ b = .ok y) := by
   split <;> simp_all [bind, Except.bind]
 
@@ -43,16 +43,16 @@ theorem pl_single {s s' : PmState} {env : PmEnv} {sender : Addr} {funds : List C
       r.msgs = [{ msg := .wasmExec env.self (.pm (.swap ask none ss none pid)) [⟨c.denom, c.amount / 2⟩],
                   replyOn := .success, id := C.SINGLE_SIDE_REPLY_ID }] := by
   unfold provideLiquidity at h
-  simp only [hagg, ↓ok_bind, ↓ite_err_ok, ↓bind_ok, ↓err_bind_ok, List.length_singleton, ↓reduceIte, pure_ok, getD?_ok',
+  simp only [hagg, ↓ok_bind, ↓ite_err_bind_ok, ↓bind_ok, ↓err_bind_ok, List.length_singleton, ↓reduceIte, pure_ok, getD?_ok',
     ↓pure_bind'] at h
   obtain ⟨pool, hp, hst, d, hd, -, -, h⟩ := h
   cases hd
-  simp only [↓ok_bind, ↓ite_err_ok, ↓bind_ok, ↓err_bind_ok, List.length_singleton, ↓reduceIte, pure_ok, getD?_ok',
+  simp only [↓ok_bind, ↓ite_err_bind_ok, ↓bind_ok, ↓err_bind_ok, List.length_singleton, ↓reduceIte, pure_ok, getD?_ok',
     ↓pure_bind', List.getElem?_cons_zero, Option.some.injEq] at h
   obtain ⟨h1, h2, h3, d, rfl, h⟩ := h
   split at h
   next x hx =>
-    simp only [↓ok_bind, ↓ite_err_ok, ↓bind_ok, ↓err_bind_ok, pure_ok, ckAdd_ok, Prod.mk.injEq] at h
+    simp only [↓ok_bind, ↓ite_err_bind_ok, ↓bind_ok, ↓err_bind_ok, pure_ok, ckAdd_ok, Prod.mk.injEq] at h
     obtain ⟨sim, hsim, _, ⟨_, rfl⟩, _, rfl, rfl⟩ := h
     refine ⟨pool, x.denom, sim, hp, by simpa using h1, by simpa using h2, by simpa using h3, hsim, rfl, rfl⟩
   next => simp only [↓err_bind_ok] at h
@@ -105,12 +105,12 @@ theorem cpShares_mints {self : Addr} {lp : Denom} {deps pa : List Coin} {ts sh :
     (h : cpShares self lp deps pa ts = .ok (sh, m0)) : ∀ m ∈ m0, IsMint m := by
   unfold cpShares at h
   split at h
-  · simp only [↓ok_bind, ↓ite_err_ok, ↓bind_ok, ↓err_bind_ok, pure_ok, Prod.mk.injEq] at h
+  · simp only [↓ok_bind, ↓ite_err_bind_ok, ↓bind_ok, ↓err_bind_ok, pure_ok, Prod.mk.injEq] at h
     obtain ⟨_, _, _, _, _, _, _, rfl⟩ := h
     intro m hm
     simp only [List.mem_singleton] at hm
     exact ⟨_, _, hm⟩
-  · simp only [↓ok_bind, ↓ite_err_ok, ↓bind_ok, ↓err_bind_ok, pure_ok, Prod.mk.injEq] at h
+  · simp only [↓ok_bind, ↓ite_err_bind_ok, ↓bind_ok, ↓err_bind_ok, pure_ok, Prod.mk.injEq] at h
     obtain ⟨_, _, _, _, _, _, _, rfl⟩ := h
     intro m hm
     cases hm
@@ -122,11 +122,11 @@ theorem pl_multi {s s' : PmState} {env : PmEnv} {sender : Addr} {funds deposits 
     ∃ pool shares msgs0, s.getPool pid = .ok pool ∧ (∀ m ∈ msgs0, IsMint m) ∧
       plTail s env sender pool deposits ls (addrOrDefault env recv sender) u l shares msgs0 = .ok (s', r) := by
   unfold provideLiquidity at h
-  simp only [hagg, ↓ok_bind, ↓ite_err_ok, ↓bind_ok, ↓err_bind_ok, List.length_singleton, ↓reduceIte, pure_ok, getD?_ok',
+  simp only [hagg, ↓ok_bind, ↓ite_err_bind_ok, ↓bind_ok, ↓err_bind_ok, List.length_singleton, ↓reduceIte, pure_ok, getD?_ok',
     ↓pure_bind', Except.ok.injEq] at h
   obtain ⟨pool, hp, hst, d, hd, -, hall, h⟩ := h
   cases hd
-  simp only [hlen, ↓ite_err_ok, ↓reduceIte] at h
+  simp only [hlen, ↓ite_err_bind_ok, ↓reduceIte] at h
   obtain ⟨-, h⟩ := h
   refine ⟨pool, ?_⟩
   cases hpt : pool.ptype with
@@ -142,7 +142,7 @@ theorem pl_multi {s s' : PmState} {env : PmEnv} {sender : Addr} {funds deposits 
     simp only [] at h
     by_cases hts : env.supply pool.lpDenom = 0
     · rw [if_pos hts] at h
-      simp only [↓ite_err_ok] at h
+      simp only [↓ite_err_bind_ok] at h
       obtain ⟨-, h⟩ := h
       cases hmin : listMin pool.decimals with
       | none => rw [hmin] at h; simp only [↓err_bind_ok] at h
@@ -186,7 +186,7 @@ theorem assertSlippageTolerance_ok {tol : Option Nat} {deps pa pa' : List Coin} 
       · cases h
       · cases pt with
         | stable amp =>
-          simp only [↓bind_ok, ↓ite_err_ok] at h
+          simp only [↓bind_ok, ↓ite_err_bind_ok] at h
           obtain ⟨_, _, _, _, _, _, _, _, _, _, h⟩ := h
           split at h
           · cases h
@@ -195,11 +195,11 @@ theorem assertSlippageTolerance_ok {tol : Option Nat} {deps pa pa' : List Coin} 
           simp only [] at h
           split at h
           · cases h
-          · simp only [↓bind_ok, ↓ite_err_ok] at h
+          · simp only [↓bind_ok, ↓ite_err_bind_ok] at h
             obtain ⟨_, _, _, _, _, _, h⟩ := h
             split at h
             · cases h
-            · simp only [↓bind_ok, ↓ite_err_ok] at h
+            · simp only [↓bind_ok, ↓ite_err_bind_ok] at h
               obtain ⟨_, _, _, _, _, _, h⟩ := h
               split at h
               · cases h
@@ -223,7 +223,7 @@ theorem plTail_ok {s s' : PmState} {env : PmEnv} {sender : Addr} {pool : PoolInf
   clear hpa
   cases u with
   | none =>
-    simp only [↓ite_err_ok, ↓pure_bind'] at h
+    simp only [↓ite_err_bind_ok, ↓pure_bind'] at h
     obtain ⟨hv, h⟩ := h
     obtain ⟨as', has, h⟩ := bind_ok.mp h
     simp only [pure_ok, Prod.mk.injEq] at h
@@ -233,7 +233,7 @@ theorem plTail_ok {s s' : PmState} {env : PmEnv} {sender : Addr} {pool : PoolInf
     simp only [List.mem_singleton] at hm
     exact Or.inl ⟨_, _, hm⟩
   | some uu =>
-    simp only [↓ite_err_ok] at h
+    simp only [↓ite_err_bind_ok] at h
     obtain ⟨hauth, h⟩ := h
     have hfin : ∀ lockMsg, (∃ cm, lockMsg = Msg.wasmExec s.config.farmManager cm [⟨pool.lpDenom, shares⟩]) →
         ∀ as', List.foldlM depositStep pool.assets deposits = .ok as' →
@@ -274,7 +274,7 @@ theorem plTail_ok {s s' : PmState} {env : PmEnv} {sender : Addr} {pool : PoolInf
       | some pos =>
         obtain ⟨pid', pr⟩ := pos
         rw [hfm] at h
-        simp only [↓ite_err_ok, ↓pure_bind'] at h
+        simp only [↓ite_err_bind_ok, ↓pure_bind'] at h
         obtain ⟨hown, h⟩ := h
         obtain ⟨as', has, h⟩ := bind_ok.mp h
         simp only [pure_ok, Prod.mk.injEq] at h
@@ -356,7 +356,7 @@ theorem pl_agg {s s' : PmState} {env : PmEnv} {sender : Addr} {funds : List Coin
     {r : Response} (h : provideLiquidity s env sender funds ls ss recv pid u l = .ok (s', r)) :
     ∃ deps, aggregateCoins funds = .ok deps ∧ deps.isEmpty = false := by
   unfold provideLiquidity at h
-  simp only [↓ok_bind, ↓ite_err_ok, ↓bind_ok, ↓err_bind_ok] at h
+  simp only [↓ok_bind, ↓ite_err_bind_ok, ↓bind_ok, ↓err_bind_ok] at h
   obtain ⟨pool, hp, hst, d, hd, hne, -⟩ := h
   exact ⟨d, hd, by simpa using hne⟩
 
